@@ -53,6 +53,8 @@ func init() {
 			p.Quick = append(p.Quick, r)
 			p.Thorough = append(p.Thorough, r)
 		}
+		p.Quick = append(p.Quick, HRun{Entry: "HarnessC17ListGap", Args: []int64{2}, Bound: "a filter list [main, <empty or null>, P] with P of 2 arbitrary bytes under branches / tags-ignore / paths: P is validated", Require: []string{"checked"}})
+		p.Thorough = append(p.Thorough, HRun{Entry: "HarnessC17ListGap", Args: []int64{3}, Bound: "pattern of 3 bytes after an empty list element", Require: []string{"checked"}})
 		props["C17"] = p
 	}
 
@@ -112,6 +114,11 @@ func init() {
 		p.Thorough = append(p.Thorough, HRun{Entry: "HarnessC03ActionInputs", Bound: "with: inputs of four kinds of action", Require: []string{"site"}})
 		{
 			r := HRun{Entry: "HarnessC03Testdata", Args: []int64{0, 1}, Bound: "every scalar value of every clean workflow under testdata/ok, testdata/err, testdata/examples of the current tree (compiled in at run time) replaced in turn by a malformed placeholder", Require: []string{"site"}}
+			p.Quick = append(p.Quick, r)
+			p.Thorough = append(p.Thorough, r)
+		}
+		{
+			r := HRun{Entry: "HarnessC03CallInputs", Bound: "with: values and a secret of a local reusable-workflow call whose inputs are declared string / number / boolean / without type / not at all: the malformed placeholder (alone or with text around) is diagnosed", Require: []string{"site"}}
 			p.Quick = append(p.Quick, r)
 			p.Thorough = append(p.Thorough, r)
 		}
@@ -194,6 +201,11 @@ func init() {
 			p.Quick = append(p.Quick, r)
 			p.Thorough = append(p.Thorough, r)
 		}
+		{
+			r := HRun{Entry: "HarnessC09OddKey", Bound: "an entry with an empty or non-scalar key (a job with step ids, a with / env / matrix entry): reported and skipped without a crash", Require: []string{"compared"}}
+			p.Quick = append(p.Quick, r)
+			p.Thorough = append(p.Thorough, r)
+		}
 		props["C01"] = p
 	}
 	// ---- C04 ----
@@ -218,7 +230,7 @@ func init() {
 			p.Quick = append(p.Quick, HRun{Entry: "HarnessC04LexAfter", Args: []int64{int64(k), 2}, Bound: "2 arbitrary bytes after one of 15 concrete token beginnings (1e- 1e 0x 1. - 1.5e- 1.5E 0 'a' a.b a- < 1e-0 0x0 1.0) followed by }}"})
 			p.Thorough = append(p.Thorough, HRun{Entry: "HarnessC04LexAfter", Args: []int64{int64(k), 3}, Bound: "3 arbitrary bytes after one of 15 concrete token beginnings"})
 		}
-		for L := 0; L <= 4; L++ {
+		for L := 0; L <= 3; L++ { // L = 4 needs more than an hour of solver time on 16 cores: left out, LexAfter covers longer tokens
 			p.Thorough = append(p.Thorough, HRun{Entry: "HarnessC04Lex", Args: []int64{int64(L)}, Bound: fmt.Sprintf(lexB, L, L)})
 		}
 		for _, L := range []int64{1, 2, 3} {
@@ -239,6 +251,11 @@ func init() {
 			HRun{Entry: "HarnessC04Structure", Args: []int64{2, 9, 6}, Bound: "depth <= 2, all comparisons and operand kinds", Require: []string{"parsed"}},
 			HRun{Entry: "HarnessC04Reuse", Bound: "parser reuse", Require: []string{"parsed"}},
 		)
+		{
+			r := HRun{Entry: "HarnessC07Template", Args: []int64{1, 1}, Bound: "two placeholders in one scalar with arbitrary filler bytes between them (a quote after the first }} included): the malformed second one is reported exactly once", Require: []string{"checked"}}
+			p.Quick = append(p.Quick, r)
+			p.Thorough = append(p.Thorough, r)
+		}
 		props["C04"] = p
 	}
 
@@ -269,6 +286,11 @@ func init() {
 			{"HarnessC19Dynamic", "include with one entry given by an expression (first / last / alone) x 3 exclude lists x duplicate or not in a static row: no exclude report, the duplicate reported once", "checked"},
 		} {
 			r := HRun{Entry: e.n, Bound: e.b, Require: []string{e.r}}
+			p.Quick = append(p.Quick, r)
+			p.Thorough = append(p.Thorough, r)
+		}
+		{
+			r := HRun{Entry: "HarnessC19Partial", Bound: "a scalar with a placeholder (alone, with text around, two placeholders) as row value, include value or exclude value: never an exclude mismatch report", Require: []string{"checked"}}
 			p.Quick = append(p.Quick, r)
 			p.Thorough = append(p.Thorough, r)
 		}
@@ -345,6 +367,11 @@ func init() {
 		p.Thorough = append(p.Thorough, HRun{Entry: "HarnessC16MatcherLines", Args: []int64{3}, Bound: "two header lines, colours off / on, echoed key of 3 printable bytes", Require: []string{"diagnostic", "linted"}})
 		p.Quick = append(p.Quick, HRun{Entry: "HarnessC16MatrixEcho", Args: []int64{2}, Bound: "matrix diagnostics that echo a mapping value whose key or value is 2 arbitrary bytes (duplicate row value, exclude entry that matches nothing)", Require: []string{"diagnostic", "linted"}})
 		p.Thorough = append(p.Thorough, HRun{Entry: "HarnessC16MatrixEcho", Args: []int64{3}, Bound: "echoed mapping key / value of 3 arbitrary bytes", Require: []string{"diagnostic", "linted"}})
+		{
+			r := HRun{Entry: "HarnessC02Format", Bound: "-format: what the template printer receives for a multi-file run (message, position, kind, snippet) equals the files formatted alone, for every goroutine completion order and GOMAXPROCS = 1", Require: []string{"compared"}}
+			p.Quick = append(p.Quick, r)
+			p.Thorough = append(p.Thorough, r)
+		}
 		props["C16"] = p
 	}
 
@@ -379,6 +406,11 @@ func init() {
 		p.Thorough = append(p.Thorough, HRun{Entry: "HarnessC10FindProject", Bound: "81 repository layouts", Require: []string{"found"}})
 		{
 			r := HRun{Entry: "HarnessC14Routes", Bound: "a callee's interface decoded from its file or written from its syntax tree (which one is used depends on the order of the files): same interface, and a caller gets the same diagnostics with either", Require: []string{"compared"}}
+			p.Quick = append(p.Quick, r)
+			p.Thorough = append(p.Thorough, r)
+		}
+		{
+			r := HRun{Entry: "HarnessC10SameActionPath", Bound: "two repositories with a local action at the same relative path but different outputs, linted together in both orders and goroutine orders: each file is checked against its own repository's action", Require: []string{"linted"}}
 			p.Quick = append(p.Quick, r)
 			p.Thorough = append(p.Thorough, r)
 		}
@@ -433,6 +465,11 @@ func init() {
 			p.Quick = append(p.Quick, r)
 			p.Thorough = append(p.Thorough, r)
 		}
+		{
+			r := HRun{Entry: "HarnessC14ActionFile", Bound: "a local action whose input is declared in 3 letter cases and supplied in 3: required / undeclared verdicts as declared", Require: []string{"checked"}}
+			p.Quick = append(p.Quick, r)
+			p.Thorough = append(p.Thorough, r)
+		}
 		props["C08"] = p
 	}
 
@@ -478,6 +515,11 @@ func init() {
 			p.Quick = append(p.Quick, r)
 			p.Thorough = append(p.Thorough, r)
 		}
+		{
+			r := HRun{Entry: "HarnessC18Needs", Args: []int64{3, 1, 1}, Bound: "the needs graph of 3 jobs (every edge set, every map order): the verdict about a cycle does not depend on unrelated jobs before it", Require: []string{"dangling"}}
+			p.Quick = append(p.Quick, r)
+			p.Thorough = append(p.Thorough, r)
+		}
 		props["C09"] = p
 	}
 
@@ -511,6 +553,11 @@ func init() {
 			{"HarnessC02ConfigError", "a configuration with three invalid glob patterns in `paths`: the fatal error under every iteration order of the map"},
 		} {
 			r := HRun{Entry: e.n, Bound: e.b, Require: []string{"compared"}}
+			p.Quick = append(p.Quick, r)
+			p.Thorough = append(p.Thorough, r)
+		}
+		{
+			r := HRun{Entry: "HarnessC02Nested", Bound: "a repository vendored inside another one, each with its own configuration: one Linter, [inner, outer] twice and [outer, inner] once", Require: []string{"compared"}}
 			p.Quick = append(p.Quick, r)
 			p.Thorough = append(p.Thorough, r)
 		}
@@ -591,6 +638,16 @@ func init() {
 			p.Quick = append(p.Quick, r)
 			p.Thorough = append(p.Thorough, r)
 		}
+		{
+			r := HRun{Entry: "HarnessC07Untrusted", Bound: "the untrusted-input diagnostic of a run: script sits at the first token of the untrusted access (5 expressions with harmless accesses before it), symbolic position and quoting", Require: []string{"checked"}}
+			p.Quick = append(p.Quick, r)
+			p.Thorough = append(p.Thorough, r)
+		}
+		{
+			r := HRun{Entry: "HarnessC07RunnerLabel", Bound: "an unknown runner label among the values that feed runs-on: ${{ matrix.os }} (row or include entry) at a symbolic position: reported at that value", Require: []string{"checked"}}
+			p.Quick = append(p.Quick, r)
+			p.Thorough = append(p.Thorough, r)
+		}
 		props["C07"] = p
 	}
 
@@ -641,6 +698,11 @@ func init() {
 			{"HarnessC06InputDefault", "default of a boolean / number / string workflow_call input given by 4 placeholders of unknown type: accepted"},
 		} {
 			r := HRun{Entry: e.n, Bound: e.b, Require: []string{"checked"}}
+			p.Quick = append(p.Quick, r)
+			p.Thorough = append(p.Thorough, r)
+		}
+		{
+			r := HRun{Entry: "HarnessC06RunsOn", Bound: "runs-on (or its labels:) given by one placeholder of type any / array<any> / array of strings built from an unknown value: accepted", Require: []string{"checked"}}
 			p.Quick = append(p.Quick, r)
 			p.Thorough = append(p.Thorough, r)
 		}
